@@ -54,7 +54,8 @@ impl<E> ClientEventQueue<E> {
     }
 
     pub(super) fn clear(&mut self) {
-        while let Some((_, messages)) = self.map.pop_first() {
+        while let Some((_, mut messages)) = self.map.pop_first() {
+            messages.clear(); // Queued messages shouldn't leak into entries that reuse the memory.
             self.buffer.push(messages);
         }
     }
